@@ -36,3 +36,429 @@ def enclosing_fn(src, p):
             if p_open is not None and p_open < p <= p_close:
                 return src.t(q + 1).text, q
     return best, None
+
+
+# =====================================================================================
+# F-number (C06): every construction site of a number value is discharged by a rule
+# =====================================================================================
+import glob
+import hashlib
+import json
+import shutil
+import subprocess
+
+VERIF_ROOT = os.path.dirname(os.path.dirname(os.path.abspath(__file__)))
+NUM_FILES_GLOB = "rsjsonnet-lang/src/program/**/*.rs"
+KW_NOT_CALL = {"if", "match", "in", "while", "return", "for", "let", "else", "move"}
+
+
+def _enclosing_opens(src, p):
+    """positions of the '{' tokens enclosing significant position p, innermost last"""
+    out = []
+    stack = []
+    for q in range(0, p):
+        t = src.t(q)
+        if t.kind == PUNCT and t.text in "([{":
+            stack.append(q)
+        elif t.kind == PUNCT and t.text in ")]}":
+            stack.pop()
+    return [q for q in stack if src.t(q).text == "{"], stack
+
+
+def _is_pattern_site(src, p, p_close):
+    """p = position of `ValueData`, p_close = position of the ')' closing Number(...)"""
+    # path may be prefixed (crate::...::ValueData) - walk back over `ident ::`
+    q = p
+    while q >= 2 and src.t(q - 1).text == ":" and src.t(q - 2).text == ":":
+        q -= 3
+        if q < 0 or src.t(q).kind != IDENT:
+            break
+    prev = src.t(q - 1) if q > 0 else None
+    nxt = src.t(p_close + 1) if p_close + 1 < src.n() else None
+
+    def after_is_pattern_end(pos):
+        t1 = src.t(pos)
+        if t1.kind == PUNCT and t1.text == "=" and pos + 1 < src.n():
+            t2 = src.t(pos + 1)
+            if t2.text == ">":
+                return True
+            if t2.text != "=":
+                return True          # `let PAT = ...`
+        if t1.kind == IDENT and t1.text in ("if", "else"):
+            return True              # match guard / let-else handled by `=` above
+        if t1.kind == PUNCT and t1.text == "|" :
+            return True
+        return False
+
+    if prev is None:
+        return False
+    if prev.kind == IDENT and prev.text == "let":
+        return True
+    if prev.kind == PUNCT and prev.text == ">" and q >= 2 and src.t(q - 2).text == "=":
+        return False                 # `=> ValueData::Number(..)`
+    if prev.kind == PUNCT and prev.text == "=":
+        return False
+    if prev.kind == IDENT and prev.text == "return":
+        return False
+    # enclosing bracket
+    _, stack = _enclosing_opens(src, p)
+    if not stack:
+        return False
+    o = stack[-1]
+    ot = src.t(o).text
+    if ot == "(":
+        before = src.t(o - 1) if o > 0 else None
+        if before is not None and ((before.kind == IDENT and before.text not in KW_NOT_CALL) or before.text in (">",)):
+            # call argument `f(...)` - but also tuple-struct PATTERN `Some(ValueData::Number(x)) =>`
+            c = src.match[o]
+            return after_is_pattern_end(c + 1) and _simple_binding(src, p_close)
+        # tuple: pattern iff followed by `=>` / `=` / `|`
+        c = src.match[o]
+        return after_is_pattern_end(c + 1)
+    if ot == "{":
+        return nxt is not None and after_is_pattern_end(p_close + 1)
+    if ot == "[":
+        return False
+    return False
+
+
+def _simple_binding(src, p_close):
+    o = src.match[p_close]
+    inner = [src.t(k) for k in range(o + 1, p_close)]
+    return all(t.kind == IDENT or t.text == "_" for t in inner) and len(inner) <= 3
+
+
+def number_sites(repo):
+    """every expression-position `ValueData::Number(<arg>)` plus `State::PushU32AsValue(<arg>)`"""
+    sites = []
+    for path in sorted(glob.glob(os.path.join(repo, NUM_FILES_GLOB), recursive=True)):
+        rel = os.path.relpath(path, repo)
+        src = load(repo, rel)
+        n = src.n()
+        for p in range(n - 4):
+            t = src.t(p)
+            if t.kind != IDENT:
+                continue
+            ctor = None
+            if (t.text in ("ValueData", "Self") and src.t(p + 1).text == ":" and src.t(p + 2).text == ":"
+                    and src.t(p + 3).text == "Number" and src.t(p + 4).text == "("):
+                ctor = "ValueData::Number"
+            elif (t.text == "State" and src.t(p + 1).text == ":" and src.t(p + 2).text == ":"
+                  and src.t(p + 3).text == "PushU32AsValue" and src.t(p + 4).text == "("):
+                ctor = "State::PushU32AsValue"
+            if not ctor:
+                continue
+            if t.text == "Self" and "data.rs" not in rel:
+                continue
+            p_open = p + 4
+            p_close = src.match[p_open]
+            if _is_pattern_site(src, p, p_close):
+                continue
+            inner = [src.t(k).text for k in range(p_open + 1, p_close)]
+            if inner == ["_"] or (inner and inner[0] in ("ref", "mut")) or inner == [".", "."]:
+                continue   # `_` / `ref x` can only be a pattern (e.g. inside matches!(..))
+            fn_name, p_fn = enclosing_fn(src, p)
+            a = src.toks[src.sig[p_open + 1]].start
+            b = src.toks[src.sig[p_close - 1]].end if p_close - 1 > p_open else a
+            sites.append({"file": rel, "line": t.line, "fn": fn_name, "p_fn": p_fn, "p": p, "p_open": p_open,
+                          "p_close": p_close, "ctor": ctor, "arg": " ".join(src.text[a:b].split()), "a": a, "b": b})
+    return sites
+
+
+def _assigns_between(src, ident, lo, hi):
+    for q in range(lo, hi):
+        t = src.t(q)
+        if t.kind == IDENT and t.text == ident:
+            nx = src.t(q + 1)
+            pv = src.t(q - 1)
+            if pv.kind == IDENT and pv.text in ("let", "mut") :
+                return True
+            if nx.kind == PUNCT and nx.text == "=" and src.t(q + 2).text != "=" and pv.text not in ("=", "!", "<", ">"):
+                return True
+            if nx.kind == PUNCT and nx.text in "+-*/%" and src.t(q + 2).text == "=":
+                return True
+    return False
+
+
+def finiteness_gate(src, p_fn, site_p, ident):
+    """a dominating finiteness gate on `ident` before site_p inside the fn at p_fn -> description or None"""
+    p_open, p_close, _ = src.item_end(p_fn)
+    site_chain, _ = _enclosing_opens(src, site_p)
+    best = None
+    for q in range(p_open + 1, site_p):
+        t = src.t(q)
+        # (a) self.check_number_value(ident, ...)?
+        if (t.kind == IDENT and t.text == "check_number_value" and src.t(q + 1).text == "("
+                and src.t(q + 2).text == ident and src.t(q + 3).text == ","):
+            c = src.match[q + 1]
+            if src.t(c + 1).text == "?" and c < site_p:
+                chain, _ = _enclosing_opens(src, q)
+                if chain and chain[-1] in site_chain and not _assigns_between(src, ident, c, site_p):
+                    best = "G:check_number_value(%s)? at line %d" % (ident, t.line)
+        # (b)/(c)/(d)  [!] ident . is_finite ( )
+        if (t.kind == IDENT and t.text == ident and src.t(q + 1).text == "." and src.t(q + 2).text == "is_finite"
+                and src.t(q + 3).text == "(" and src.t(q + 4).text == ")"):
+            neg = src.t(q - 1).text == "!"
+            kw = src.t(q - 2 if neg else q - 1)
+            after = q + 5
+            if kw.kind == IDENT and kw.text == "if" and src.t(after).text == "{":
+                blk_o = after
+                blk_c = src.match[blk_o]
+                if neg:
+                    # if !x.is_finite() { return ... }   then falls through
+                    first = src.t(blk_o + 1)
+                    if first.kind == IDENT and first.text == "return" and blk_c < site_p:
+                        chain, _ = _enclosing_opens(src, q)
+                        if chain and chain[-1] in site_chain and not _assigns_between(src, ident, blk_c, site_p):
+                            best = "G:if !%s.is_finite() { return Err } at line %d" % (ident, t.line)
+                else:
+                    if blk_o < site_p < blk_c and not _assigns_between(src, ident, blk_o, site_p):
+                        best = "G:inside if %s.is_finite() at line %d" % (ident, t.line)
+            elif kw.kind == IDENT and kw.text == "if" and not neg and src.t(after).text == "=" and src.t(after + 1).text == ">":
+                # match guard: site must be inside this arm (no other `=>` between at the arm depth)
+                arm_chain, _ = _enclosing_opens(src, q)
+                ok = True
+                for r in range(after + 2, site_p):
+                    if src.t(r).text == "=" and src.t(r + 1).text == ">":
+                        ch, _ = _enclosing_opens(src, r)
+                        if ch == arm_chain:
+                            ok = False
+                if ok:
+                    best = "G:match guard %s.is_finite() at line %d" % (ident, t.line)
+    return best
+
+
+def _int_shape(arg):
+    """(operand text span relative to arg, kind) for integer-conversion shapes"""
+    m = re.match(r"^f64 :: from \( (.+) \)$", arg) or re.match(r"^f64::from\((.+)\)$", arg)
+    if m:
+        return "from", m.group(1)
+    m = re.match(r"^(.+) as f64$", arg)
+    if m:
+        return "as", m.group(1)
+    m = re.match(r"^(.+)\.into\(\)$", arg)
+    if m:
+        return "into", m.group(1)
+    return None
+
+
+def numgate_fragments(repo):
+    import extract
+    ub = extract.build_unit(os.path.join(VERIF_ROOT, "units", "numgate", "unit.rs"), repo)
+    out = []
+    for f in ub.fragments:
+        m = re.match(r"(.*):(\d+)-(\d+)$", f["origin"])
+        out.append((m.group(1), int(m.group(2)), int(m.group(3)), f["what"]))
+    return out
+
+
+CALLEE_RULES = {
+    # site (file suffix, fn, arg) -> callee whose every Ok(..) result is gated
+    ("eval/parse_json.rs", "parse_json", "number"): ("rsjsonnet-lang/src/program/eval/parse_json.rs", "impl:Lexer/fn:lex_number", "Some"),
+    ("eval/stdlib.rs", "do_std_parse_octal", "number"): ("rsjsonnet-lang/src/program/eval/mod.rs", "fn:parse_num_radix", None),
+    ("eval/stdlib.rs", "do_std_parse_hex", "number"): ("rsjsonnet-lang/src/program/eval/mod.rs", "fn:parse_num_radix", None),
+}
+EXTERNAL_API = {("program/mod.rs", "number", "value")}   # pub fn Value::number(f64): embedder input (assumption)
+
+
+def callee_returns_finite(repo, file_, path, wrap):
+    src = load(repo, file_)
+    p_kw, p_open, p_close, _ = src.resolve(path)
+    n_ok = 0
+    for q in range(p_open + 1, p_close):
+        if src.t(q).kind == IDENT and src.t(q).text == "Ok" and src.t(q + 1).text == "(":
+            inner = q + 2
+            if wrap:
+                if src.t(inner).text == "None":
+                    continue
+                if not (src.t(inner).text == wrap and src.t(inner + 1).text == "("):
+                    return None
+                inner += 2
+            if src.t(inner).kind != IDENT:
+                return None
+            g = finiteness_gate(src, p_kw, q, src.t(inner).text)
+            if not g:
+                return None
+            n_ok += 1
+    return n_ok if n_ok else None
+
+
+def int_type_check(repo, cache, sites):
+    """rustc discharges `operand is of an integer type` for every rule-I site: the operand is
+    wrapped in crate::vx_int(..) (identity, bounded by a trait implemented for the integer
+    types only) in a scratch copy of the crate, which must still type-check."""
+    scratch = os.path.join(cache, "intcheck-src")
+    shutil.rmtree(scratch, ignore_errors=True)
+    os.makedirs(scratch)
+    for item in ("Cargo.toml", "Cargo.lock", "rsjsonnet", "rsjsonnet-front", "rsjsonnet-lang"):
+        s = os.path.join(repo, item)
+        if os.path.isdir(s):
+            shutil.copytree(s, os.path.join(scratch, item), ignore=shutil.ignore_patterns("target", "ui-tests"))
+        else:
+            shutil.copy(s, os.path.join(scratch, item))
+    by_file = {}
+    for s in sites:
+        by_file.setdefault(s["file"], []).append(s)
+    for rel, ss in by_file.items():
+        src = load(repo, rel)
+        text = src.text
+        edits = []
+        for s in ss:
+            kind, operand = s["int_shape"]
+            arg_text = text[s["a"]:s["b"]]
+            if kind == "from":
+                i0 = arg_text.index("(") + 1
+                i1 = arg_text.rindex(")")
+            elif kind == "as":
+                i0 = 0
+                i1 = arg_text.rindex(" as ")
+            else:
+                i0 = 0
+                i1 = arg_text.rindex(".into")
+            edits.append((s["a"] + i0, s["a"] + i1))
+        for a, b in sorted(edits, reverse=True):
+            text = text[:a] + "crate::vx_int(" + text[a:b] + ")" + text[b:]
+        open(os.path.join(scratch, rel), "w").write(text)
+    lib = os.path.join(scratch, "rsjsonnet-lang/src/lib.rs")
+    open(lib, "a").write("""
+#[doc(hidden)] pub(crate) trait VxInt {}
+macro_rules! vx_int_impl { ($($t:ty),*) => { $(impl VxInt for $t {})* } }
+vx_int_impl!(u8, u16, u32, u64, u128, usize, i8, i16, i32, i64, i128, isize);
+#[doc(hidden)] #[inline] pub(crate) fn vx_int<T: VxInt>(x: T) -> T { x }
+""")
+    env = dict(os.environ, CARGO_NET_OFFLINE="true", CARGO_TARGET_DIR=os.path.join(cache, "target-intcheck"))
+    p = subprocess.run(["cargo", "check", "--offline", "-q", "-p", "rsjsonnet-lang", "--manifest-path", os.path.join(scratch, "Cargo.toml")],
+                       env=env, stdout=subprocess.PIPE, stderr=subprocess.STDOUT, text=True)
+    shutil.rmtree(scratch, ignore_errors=True)
+    return p.returncode, p.stdout
+
+
+@frame("C06")
+def f_number(repo):
+    cache = os.environ.get("VERIF_CACHE", "/var/tmp/verif-cache")
+    os.makedirs(cache, exist_ok=True)
+    sites = number_sites(repo)
+    frags = numgate_fragments(repo)
+    baseline = set(tuple(x) for x in json.load(open(os.path.join(VERIF_ROOT, "units", "numgate", "frame_baseline.json")))["fns"])
+    failed, samples, rules, undecided = [], [], {}, []
+    int_sites = []
+    # State::PushU32AsValue is typed u32 by the enum definition
+    st = load(repo, "rsjsonnet-lang/src/program/eval/state.rs")
+    pk, po, pc, _ = st.resolve("enum:State")
+    u32_typed = any(st.t(q).text == "PushU32AsValue" and st.t(q + 1).text == "(" and st.t(q + 2).text == "u32" and st.t(q + 3).text == ")"
+                    for q in range(po, pc))
+    for s in sites:
+        src = load(repo, s["file"])
+        rule = None
+        arg = s["arg"]
+        key = "%s:%s:%s" % (s["file"].replace("rsjsonnet-lang/src/", ""), s["fn"], arg)
+        if s["ctor"] == "State::PushU32AsValue":
+            rule = "T:variant field declared u32" if u32_typed else None
+        elif re.fullmatch(r"-?[0-9][0-9_]*(\.[0-9_]+)?([eE][+-]?[0-9_]+)?(f64)?", arg) or arg in ("std::f64::consts::PI", "std :: f64 :: consts :: PI"):
+            rule = "L:literal constant"
+        else:
+            for (f, l0, l1, what) in frags:
+                if f == s["file"] and l0 <= s["line"] <= l1 and what.split("::")[-1] not in ("check_number_value", "safe_f64_to_i64", "expect_std_func_arg_number"):
+                    rule = "K:inside numgate fragment `%s` (Kani: pushed => finite)" % what
+                    break
+            if not rule and re.fullmatch(r"[A-Za-z_][A-Za-z0-9_]*", arg):
+                g = finiteness_gate(src, s["p_fn"], s["p"], arg) if s["p_fn"] is not None else None
+                if g:
+                    rule = g
+                else:
+                    for (fs, fn, a), (cf, cpath, wrap) in CALLEE_RULES.items():
+                        if s["file"].endswith(fs) and s["fn"] == fn and arg == a:
+                            # the site's operand must be bound from that callee in this fn
+                            n_ok = callee_returns_finite(repo, cf, cpath, wrap)
+                            callee_name = cpath.split(":")[-1]
+                            p_open, p_close, _ = src.item_end(s["p_fn"])
+                            bound = any(src.t(q).text == callee_name for q in range(p_open, s["p"]))
+                            if n_ok and bound:
+                                rule = "E:callee %s returns only gated-finite values (%d Ok sites)" % (cpath, n_ok)
+                    if not rule and any(s["file"].endswith(f) and s["fn"] == fn and arg == a for (f, fn, a) in EXTERNAL_API):
+                        rule = "X:public embedder API input (assumption, not a language-level producer)"
+            if not rule:
+                sh = _int_shape(arg)
+                if sh:
+                    s["int_shape"] = sh
+                    int_sites.append(s)
+                    rule = "I:integer conversion `%s` (operand type discharged by rustc)" % arg
+        if rule:
+            rules[key] = rule
+            if len(samples) < 6 or rule[0] in "EXT" and len(samples) < 12:
+                samples.append("C06:F-number:%s  <= %s" % (key, rule))
+        else:
+            ob = "C06:F-number:%s at %s:%d matches no finiteness rule (G gate / I integer / K kani / L literal / E callee)" % (key, s["file"], s["line"])
+            rec = {"obligation": ob, "site": key, "file": s["file"], "line": s["line"], "fn": s["fn"], "arg": arg,
+                   "probe": NUMBER_PROBES.get(s["fn"])}
+            if (s["file"], s["fn"]) in baseline:
+                failed.append(rec)
+            else:
+                undecided.append(rec)
+    n_ob = len(sites)
+    if int_sites:
+        rc, out = int_type_check(repo, cache, int_sites)
+        n_ob += 1
+        if rc != 0:
+            lines = set(int(m) for m in re.findall(r"-->\s*\S+?:(\d+):\d+", out))
+            hit = [s for s in int_sites if s["line"] in lines]
+            if not hit:
+                raise LostAnchor("rule-I type check did not compile and no site could be blamed: " + out[-600:])
+            for s in hit:
+                key = "%s:%s:%s" % (s["file"].replace("rsjsonnet-lang/src/", ""), s["fn"], s["arg"])
+                failed.append({"obligation": "C06:F-number:%s operand of integer conversion is not an integer type (rustc)" % key,
+                               "site": key, "file": s["file"], "line": s["line"], "fn": s["fn"], "arg": s["arg"],
+                               "rustc": out[-800:], "probe": NUMBER_PROBES.get(s["fn"])})
+    if undecided:
+        raise LostAnchor("new number construction site(s) outside the baseline functions need a contract: "
+                         + "; ".join(u["site"] for u in undecided))
+    return {"name": "F-number", "obligations": n_ob, "failed": failed, "samples": samples,
+            "rules": rules, "sites": len(sites), "rule_I_sites_typechecked": len(int_sites)}
+
+
+def _probe(expr):
+    return [{"source": expr, "oracle": {"oracle": "no_inf_nan"}}]
+
+
+NUMBER_PROBES = {
+    "do_std_sum_item": _probe("std.sum([1e308, 1e308])") + _probe("std.sum([1e308, 1e308, -1e308, -1e308])"),
+    "do_std_avg_item": _probe("std.avg([1e308, 1e308])") + _probe("std.avg([1e308, 1e308, -1e308, -1e308])"),
+    "do_binary_op": _probe("1e308 + 1e308") + _probe("1e308 * 10") + _probe("-1e308 - 1e308") + _probe("1e308 / 1e-10") + _probe("1 << 62 << 1"),
+    "do_std_pow": _probe("std.pow(1e308, 2)") + _probe("std.pow(-1, 0.5)"),
+    "do_std_exp": _probe("std.exp(1000)"),
+    "do_std_log": _probe("std.log(0)") + _probe("std.log(-1)"),
+    "do_std_log2": _probe("std.log2(0)") + _probe("std.log2(-1)"),
+    "do_std_log10": _probe("std.log10(0)") + _probe("std.log10(-1)"),
+    "do_std_sqrt": _probe("std.sqrt(-1)"),
+    "do_std_asin": _probe("std.asin(2)"),
+    "do_std_acos": _probe("std.acos(2)"),
+    "do_std_modulo": _probe("std.modulo(1, 0)"),
+    "do_std_mod": _probe("std.mod(1, 0)") + _probe("1 % 0"),
+    "do_std_hypot": _probe("std.hypot(1e308, 1e308)"),
+    "do_std_rad2deg": _probe("std.rad2deg(1e308)"),
+    "do_std_parse_int": _probe("std.parseInt(std.repeat('9', 400))"),
+    "do_std_parse_hex": _probe("std.parseHex(std.repeat('f', 400))"),
+    "do_std_parse_octal": _probe("std.parseOctal(std.repeat('7', 400))"),
+    "parse_json": _probe("std.parseJson('1e999')"),
+    "scalar_to_value": _probe("std.parseYaml('1e999')") + _probe("std.parseYaml('.inf')") + _probe("std.parseYaml('.nan')"),
+    "run": _probe("-(1e308) - 1e308"),
+    "do_expr": _probe("1e999"),
+}
+
+
+def rebaseline(repo):
+    sites = number_sites(repo)
+    fns = sorted(set((s["file"], s["fn"]) for s in sites))
+    json.dump({"_comment": "functions that contained number construction sites, all discharged, when the baseline was taken (maintenance command: python3 vx/frame.py --rebaseline); an undischarged site inside one of these is a VIOLATION, a site in a new function is `needs contract` (exit 2)",
+               "fns": fns}, open(os.path.join(VERIF_ROOT, "units", "numgate", "frame_baseline.json"), "w"), indent=1)
+    return fns
+
+
+if __name__ == "__main__":
+    import sys
+    repo = "/repo"
+    if "--rebaseline" in sys.argv:
+        print(len(rebaseline(repo)), "functions in baseline")
+    else:
+        r = f_number(repo)
+        print(json.dumps({k: v for k, v in r.items()}, indent=1))
